@@ -107,7 +107,7 @@ func (ex *Exec) globalPtr(g *ssa.Global) *Ptr {
 	}
 	p := ex.alloc(g.Type().(*types.Pointer).Elem(), "global "+g.String())
 	p.base.(*Obj).global = g.String()
-	p.base.(*Obj).shared = true
+	p.base.(*Obj).shared = !ex.W.isHarnessGlobal(g)
 	ex.globals[g] = p
 	return p
 }
